@@ -265,7 +265,8 @@ def run(ctx):  # noqa: C901, PLR0912, PLR0915
             if isinstance(n, ast.Return) and n.value is not None:
                 n_ret += 1
                 leaks = _resident_parts(n.value, res)
-                ctx.ob('C03.R4', f'return {unparse(n.value)}', not leaks,
+                g = cfg_of(fi)
+                ctx.ob('C03.R4', f'return {g.canon_text(g.holder(n), n.value)}', not leaks,
                        f'{fi.name} returns a copy / a new object' if not leaks else
                        f'{fi.name} hands out the object(s) stored in the MDIB without a copy: '
                        f'{[unparse(x) for x in leaks]}; changing them changes the MDIB without a commit',
@@ -286,7 +287,8 @@ def run(ctx):  # noqa: C901, PLR0912, PLR0915
             n_app += 1
             arg = c.args[0]
             ok = _is_copy_expr(arg, assigns)
-            ctx.ob('C03.R4' if ok else 'C03.R5', f'{tgt}.{nm}({unparse(arg)})', ok,
+            g = cfg_of(fi)
+            ctx.ob('C03.R4' if ok else 'C03.R5', f'{tgt}.{nm}({g.canon_text(g.holder(c), arg)})', ok,
                    f'{tgt}.{nm}: published element is a copy' if ok else
                    f'{tgt}.{nm}({unparse(arg)}) publishes an object that the caller / the MDIB still holds '
                    f'(no copy): later changes alter what this commit published', fi=fi, node=c)
@@ -319,7 +321,8 @@ def run(ctx):  # noqa: C901, PLR0912, PLR0915
     for c in calls_in(hs.node):
         if call_name(c) in ('add_object_no_lock', 'add_object') and c.args:
             ok = _is_copy_expr(c.args[0], local_assignments(hs.node))
-            ctx.ob('C03.R5', f'{unparse(c)}', ok,
+            g = cfg_of(hs)
+            ctx.ob('C03.R5', f'{call_name(c)}({g.canon_text(g.holder(c), c.args[0])})', ok,
                    'the state object stored in the table is a fresh copy' if ok else
                    'the state object stored in the table is the very object that get_state/add_state handed to / took '
                    'from the caller: changing it after the transaction changes the MDIB without a commit', fi=hs, node=c)
